@@ -868,45 +868,48 @@ func (g *Graph) Infeasible(assumed func(Fact) bool) func(*GEdge) bool {
 			}
 			return assumed(Fact{X: e.Tag, Y: e.Cond, Pos: true})
 		}
-		var atoms []Fact
-		var flatten func(x ast.Expr, pos bool) bool
-		flatten = func(x ast.Expr, pos bool) bool {
+		// lits(x, want): the literals that must ALL hold for x to evaluate to want, when x is a pure conjunction
+		// (want=true) or a pure disjunction (want=false) of atoms; ok=false otherwise.
+		var lits func(x ast.Expr, want bool) ([]Fact, bool)
+		lits = func(x ast.Expr, want bool) ([]Fact, bool) {
 			x = ast.Unparen(x)
 			switch t := x.(type) {
 			case *ast.UnaryExpr:
 				if t.Op == token.NOT {
-					return flatten(t.X, !pos)
+					return lits(t.X, !want)
 				}
 			case *ast.BinaryExpr:
-				if t.Op == token.LAND && pos {
-					return flatten(t.X, true) && flatten(t.Y, true)
-				}
-				if t.Op == token.LOR && !pos {
-					return flatten(t.X, false) && flatten(t.Y, false)
+				if (t.Op == token.LAND && want) || (t.Op == token.LOR && !want) {
+					a, ok1 := lits(t.X, want)
+					b, ok2 := lits(t.Y, want)
+					return append(a, b...), ok1 && ok2
 				}
 				if t.Op == token.LAND || t.Op == token.LOR {
-					return false // not a pure conjunction
+					return nil, false
 				}
 			}
-			atoms = append(atoms, Fact{X: x, Pos: pos})
-			return true
+			return []Fact{{X: x, Pos: want}}, true
 		}
-		if !flatten(e.Cond, true) {
-			return false
-		}
-		if e.Taken {
-			for _, a := range atoms {
+		// the outcome requires all of these literals: infeasible when one of them contradicts the assumption
+		if must, ok := lits(e.Cond, e.Taken); ok {
+			for _, a := range must {
 				if assumed(Fact{X: a.X, Pos: !a.Pos}) {
 					return true
 				}
 			}
 			return false
 		}
-		for _, a := range atoms {
-			if !assumed(a) {
-				return false
+		// the outcome is a disjunction of literals (false edge of a conjunction / true edge of a disjunction):
+		// infeasible when every alternative contradicts the assumption
+		if alts, ok := lits(e.Cond, !e.Taken); ok && len(alts) > 0 {
+			for _, a := range alts {
+				// alternative literal: negation of a
+				if !assumed(a) {
+					return false
+				}
 			}
+			return true
 		}
-		return len(atoms) > 0
+		return false
 	}
 }
